@@ -112,6 +112,12 @@ def call_pool(rng, n_per_kind):
     for src, f1, f2 in conv:
         if os.path.exists(os.path.join(data, src)):
             calls.append({"kind": "convert", "path": os.path.join(data, src), "fmt": f1, "out": f2})
+    # damaged files: what a call makes of them (an error, a shorter object) does not depend on what was loaded before
+    for name, fmt in (("water_sto3g_hf.wfx", "wfx"), ("h2o_sto3g.fchk", "fchk"), ("h2o_sto3g.wfn", "wfn"), ("nh3_molden_cart.molden", "molden"),
+                      ("water.xyz", "xyz"), ("water_single.pdb", "pdb"), ("li_sp_virtual_norm1.mkl", "molekel")):
+        if os.path.exists(os.path.join(data, name)):
+            for mode in ("head", "drop"):
+                calls.append({"kind": "load_damaged", "path": os.path.join(data, name), "fmt": fmt, "mode": mode})
     calls.append({"kind": "load_one", "path": os.path.join(data, "water.xyz"), "fmt": "fchk"})       # fails: wrong format
     calls.append({"kind": "load_one", "path": os.path.join(data, "water.xyz"), "fmt": "nonexistent"})  # fails: unknown format
     calls.append({"kind": "load_many", "path": os.path.join(data, "water.mol2"), "fmt": "cube"})     # fails: unsupported
@@ -131,6 +137,20 @@ def run_call(c, tmp):
             k = c["kind"]
             if k == "load_one":
                 return "obj:" + digest(api.load_one(c["path"], fmt=c["fmt"]))
+            if k == "load_damaged":
+                lines = open(c["path"]).read().splitlines(keepends=True)
+                if c["mode"] == "head":
+                    lines = lines[: max(2, (6 * len(lines)) // 10)]
+                elif c["fmt"] == "wfx":
+                    i0 = next(i for i, ln in enumerate(lines) if ln.strip() == "<Number of Electrons>")
+                    del lines[i0:i0 + 3]            # a mandatory section is missing
+                else:
+                    i0 = len(lines) // 3
+                    del lines[i0:i0 + 2]
+                dam = os.path.join(tmp, "damaged." + c["id"] + "_" + threading.current_thread().name)
+                with open(dam, "w") as fh:
+                    fh.writelines(lines)
+                return "obj:" + digest(api.load_one(dam, fmt=c["fmt"]))
             if k == "load_many":
                 return "objs:" + hashlib.sha1(",".join(digest(o) for o in api.load_many(c["path"], fmt=c["fmt"])).encode()).hexdigest()
             # all outputs of a run live in one directory and differ only in their extension (like o2.molden, o2.fchk, o2.wfn)
